@@ -18,7 +18,7 @@ ASSUMPTIONS = [
     "corruption is restricted to 1-2 bit flips before stuffing (guaranteed CRC-detectable)",
     "RST/RSTACK frames used to recover a failed link are not duplicated by the line (reset handshake is C09/C11)",
 ]
-PROBES = ["two_links_one_process", "repeat_on_nak", "repeat_on_timeout", "send_raised", "send_cancelled", "caller_cancelled_in_flight", "host_link_failed",
+PROBES = ["two_links_one_process", "identical_payloads_back_to_back", "repeat_on_nak", "repeat_on_timeout", "send_raised", "send_cancelled", "caller_cancelled_in_flight", "host_link_failed",
           "ncp_link_failed", "host_frmnum_wrapped", "ncp_frmnum_wrapped", "window_2", "window_3", "link_reset_after_failure",
           "sched.batch", "sched.reorder", "retx_after_cover_same_instant"]
 CLAUSES = ("C01.",)
@@ -40,6 +40,9 @@ def plan(tier):
         sweeps.append(("prefix", {"K": K, "drop_first": ["n2h", 5], "n_host": 3, "n_ncp": 1, "host_start": 15.0, "cancel_den": 0, "sched": False, "recover": False}))
     for d_ in ("A", "B"):
         sweeps.append(("twin", {"drop": d_, "n": 3, "sched": False}))
+    for K in (1, 2, 3):
+        for nth in range(1, 7):
+            sweeps.append(("ncp_repeat", {"K": K, "nth": nth, "sched": False}))
     return {
         "sweeps": sweeps,
         "exhaustive": f"all 5^d fault assignments to the first d wire frames (d={d} for K=1, {d-1} for K=2,3), 3 host + 2 NCP payloads, benign schedule",
@@ -135,9 +138,83 @@ def run_twin(params, tape, detail=False):
             "sample": {"scenario": "twin", "drop": drop_first, "outcomes": {n_: {str(k): str(v) for k, v in L["out"].items()} for n_, L in links.items()}}}
 
 
+def run_ncp_repeat(params, tape, detail=False):
+    """The NCP submits byte-identical payloads back to back (two identical callbacks, two identical replies) and one copy reaches the host only
+    as a retransmission: payloads are told apart by their frame numbers, never by their content."""
+    import asyncio
+    import hashlib
+
+    import bellows.ash as ash
+
+    from .. import refash as R
+    from ..ashmon import WireMonitor
+    from ..line import FaultPlan, Line, SimTransport
+    from ..loop import SimLoop, TimeShim, run_sim
+
+    class NthPlan(FaultPlan):
+        def __init__(self, tape, direction, nth):
+            super().__init__(tape, True, {})
+            self.direction, self.nth, self.k = direction, nth, 0
+
+        def decide(self, direction):
+            if direction == self.direction:
+                self.k += 1
+                if self.k == self.nth:
+                    return "drop"
+            return "deliver"
+
+    loop = SimLoop(None, max_iters=100_000)
+    ash.time = TimeShim(loop)
+    log, viol = [], []
+    K, nth = params["K"], params["nth"]
+    line = Line(loop, tape, NthPlan(tape, "n2h", nth), log=log, chunking=False, nodup_kinds=("rst", "rstack"))
+    line._latency = lambda: 0.001
+    mon = WireMonitor(loop, payload_ok=None)
+    upper = e1.HostUpper(loop, mon, log)
+    proto = ash.AshProtocol(upper)
+
+    def ncp_emit(frame_wo_crc, kind):
+        raw = R.with_crc(frame_wo_crc)
+        line.send("n2h", b"", raw, R.wire_raw(raw), kind)
+
+    ncp = R.NcpEndpoint(loop, tape, ncp_emit, K=K, log=log)
+
+    def host_write(data):
+        fr = mon.on_host_write(data)
+        ncan = 0
+        while data[ncan] == R.CAN:
+            ncan += 1
+        raw, _ok = R.unstuff(data[ncan:-1])
+        line.send("h2n", data[:ncan], raw, data, fr[0] if fr else "garbage")
+
+    tr = SimTransport(loop, host_write, log=log)
+    line.h2n.sink = ncp.feed
+    line.n2h.sink = lambda chunk: (mon.on_host_read(chunk), tr.feed(chunk))
+    tr.attach(proto)
+    subs = [b"same", b"same", b"same", b"other", b"other"]
+
+    async def main():
+        for j, p in enumerate(subs):
+            ncp.submit(p, j)
+        await asyncio.sleep(30.0)
+
+    outcome, val = run_sim(loop, main())
+    got = [bytes(p) for p in upper.rx]
+    if outcome != "done":
+        viol.append(("C01.live", "sim-" + outcome, f"identical NCP payloads: simulation ended with {outcome}: {val!r}"))
+    elif got != subs or len(ncp.acked) != len(subs):
+        viol.append(("C01.once", "n2h-identical-payloads", f"the NCP (window {K}) submitted {subs}, its frame #{nth} was lost once; all {len(ncp.acked)} were acknowledged by the host, "
+                     f"which handed up {got}"))
+    sig = hashlib.blake2b(repr(("ncprepeat", K, nth, got)).encode(), digest_size=8).digest()
+    return {"viol": viol, "faults": {"n2h.drop": 1}, "probes": {"identical_payloads_back_to_back": 1}, "vt": loop.time(), "iters": loop.iters, "sig": sig, "nontrivial": True,
+            "digest": hashlib.sha256(repr(log).encode()).hexdigest()[:16], "sample": {"scenario": "ncp_repeat", "K": K, "nth": nth, "handed_up": [g.decode() for g in got]}}
+
+
 def run(scenario, params, tape, detail=False):
     if scenario == "twin":
         return run_twin(params, tape, detail)
+    if scenario == "ncp_repeat":
+        return run_ncp_repeat(params, tape, detail)
     return e1.run(params, tape, detail=detail)
 
 LEVEL_TEXT = ("seeded search over fault sequences and schedules (millions of runs per hour) with the real AshProtocol against an "
